@@ -153,3 +153,14 @@ def ctor_field_defs(sx: SX, cls: str):
     for c in conflict:
         defs.pop(c, None)
     return defs
+
+
+def nonneg_atoms(sx: SX, cls: str):
+    """atoms (parameters and the fields they are stored in) every completing constructor path proves >= 0"""
+    facts, pf = validated_signs(sx, cls)
+    out = set()
+    for p, k in facts.items():
+        if k in ('pos', 'nonneg'):
+            out.add(p)
+            out |= pf.get(p, set())
+    return out
